@@ -35,7 +35,9 @@ HARD_US = [u for u in list(range(1, 3000)) + [290000 + i for i in range(300)]
 DATES = [datetime.datetime(2020, 1, 2), datetime.datetime(1999, 12, 31, 23, 59, 59),
          datetime.datetime(2020, 1, 2, 3, 4, 5, 678000), datetime.datetime(1970, 1, 1),
          datetime.datetime(2038, 1, 19, 3, 14, 8), datetime.datetime(1900, 3, 1), datetime.datetime(2020, 1, 3),
-         datetime.datetime(2020, 1, 2, 3, 4, 5, 500000), datetime.datetime(2020, 1, 2, 3, 4, 5, 400000)] + \
+         datetime.datetime(2020, 1, 2, 3, 4, 5, 500000), datetime.datetime(2020, 1, 2, 3, 4, 5, 400000),
+         # outside what nanoseconds can hold (kept out of the ns variant by normalise_column): sentinel and history
+         datetime.datetime(9999, 12, 30), datetime.datetime(1600, 3, 1)] + \
         [datetime.datetime(2039, 5, 6, 7, 8, 9, u) for u in HARD_US[:6]] + \
         [datetime.datetime(1890, 5, 6, 7, 8, 9, u) for u in HARD_US[6:9]]
 
@@ -100,7 +102,8 @@ def normalise_column(col):
         elif v == 'dateobj':
             cells = [None if c is None else c.replace(hour=0, minute=0, second=0, microsecond=0) for c in cells]
         elif v == 'datetime64[ns]':
-            cells = [None if c is None else (c if c.year > 1700 else c.replace(year=1800)) for c in cells]
+            cells = [None if c is None else (c if 1700 < c.year < 2262 else c.replace(year=1800 if c.year <= 1700 else 2200))
+                     for c in cells]
     if not any(c is not None for c in cells) and ((t == 'bool' and v == 'object') or (t == 'date' and v == 'dateobj')):
         # an object column with no non-null value cannot be told from a string column (documented)
         t, v = 'string', 'object'
